@@ -512,10 +512,28 @@ def rule5(ctx, rep):
             return [e]
 
         # drain condition: the tests of the if statements of dispatch whose body hands _cloud entries on / clears it
+        # (by role: the loop over _cloud that hands the entries on, else the statement that clears it; the condition is the
+        # path condition of that statement - enclosing ifs and guard clauses alike)
         drains = []
+        site = None
         for n in disp.own_nodes():
-            if isinstance(n, ast.If) and any(isinstance(x, (ast.Name, ast.Attribute)) and prog.resolve_in(x, disp) == CLOUD for b in n.body for x in ast.walk(b)):
-                drains.append(n.test)
+            if isinstance(n, ast.For) and any(isinstance(x, (ast.Name, ast.Attribute)) and prog.resolve_in(x, disp) == CLOUD for x in ast.walk(n.iter)):
+                site = n
+                break
+        if site is None:
+            for n in disp.own_nodes():
+                if isinstance(n, ast.Call) and isinstance(n.func, ast.Attribute) and n.func.attr == 'clear' and prog.resolve_in(n.func.value, disp) == CLOUD:
+                    site = n
+                    break
+        if site is not None:
+            # conditions that gate the whole dispatch pass (they dominate the production of the messages as well: the
+            # entry test on something_to_do()) are not part of the drain condition
+            prod = next((c for c in disp.calls() if prog.callee(c, disp) == put.qname), None)
+            common = {(id(t), o) for t, o in shared.path_condition(disp, prod)} if prod is not None else set()
+            for t, outcome in shared.path_condition(disp, site):
+                if (id(t), outcome) in common:
+                    continue
+                drains.append(t if outcome else ast.UnaryOp(op=ast.Not(), operand=t))
         # selection condition in _put
         sel = []
         for n in put.own_nodes():
